@@ -1,6 +1,16 @@
 #!/bin/sh
-# MANIFEST.setup_cmd: build the Lean library + native driver, then warm the numba cache. Offline.
+# MANIFEST.setup_cmd: build the Lean library + native drivers, then warm the numba cache. Offline.
+# Each property module is built on its own so that one broken module cannot block the others
+# (every check rebuilds what it needs anyway and reports a broken proof obligation itself).
 cd "$(dirname "$0")" || exit 2
-(cd lean && lake build) || exit 1
+cd lean || exit 2
+for exe in driver driver_io driver_vcf driver_prog driver_loci driver_ped driver_sum; do
+  lake build "$exe" > /dev/null 2>&1 || echo "setup: $exe did not build"
+done
+for i in 01 02 03 04 05 06 07 08 09 10 11 12 13 14 15 16 17 18 19 20; do
+  [ -f "MCHap/Properties/C$i.lean" ] || continue
+  lake build "MCHap.Properties.C$i" > /dev/null 2>&1 || echo "setup: MCHap.Properties.C$i did not build"
+done
+cd ..
 ./check all warm > /dev/null 2>&1
 exit 0
